@@ -17,7 +17,8 @@ import uuid
 
 VERIF = os.path.dirname(os.path.dirname(os.path.abspath(__file__)))
 DRIVER = os.path.join(VERIF, 'driver', 'target', 'release', 'rsv-driver')
-CACHE = os.path.join(VERIF, '.cache')
+# the dependency build cache; RSV_CACHE relocates it (used to run several thorough tiers in parallel, one cache copy each)
+CACHE = os.environ.get('RSV_CACHE') or os.path.join(VERIF, '.cache')
 
 CONFIGS = {
     # name -> (extra rustflags, cargo args)
